@@ -21,6 +21,7 @@ import (
 	"sort"
 	"strconv"
 	"strings"
+	"sync/atomic"
 
 	"github.com/massnetorg/mass-core/massutil"
 	"github.com/massnetorg/mass-core/pocec"
@@ -58,10 +59,37 @@ func keyFor(i int) *pocec.PrivateKey {
 // free figure creates that many spaces)
 const defaultFree = uint64(1) << 36
 
-// scripted wallet: one key counter
-type wallet struct{ n int }
+// scripted wallet: one key counter; optionally fails from the k-th further key on, or parks a caller
+type wallet struct {
+	n      int
+	failIn int           // > 0: the failIn-th call from now fails (and every later one)
+	park   chan struct{} // non-nil: the next call announces itself on `parked` and waits here
+	parked chan struct{}
+	active int32 // calls in progress
+	maxAct int32
+}
 
 func (w *wallet) GenerateNewPublicKey() (*pocec.PublicKey, uint32, error) {
+	a := atomic.AddInt32(&w.active, 1)
+	defer atomic.AddInt32(&w.active, -1)
+	for {
+		m := atomic.LoadInt32(&w.maxAct)
+		if a <= m || atomic.CompareAndSwapInt32(&w.maxAct, m, a) {
+			break
+		}
+	}
+	if p := w.park; p != nil {
+		w.park = nil
+		w.parked <- struct{}{}
+		<-p
+	}
+	if w.failIn > 0 {
+		w.failIn--
+		if w.failIn == 0 {
+			w.failIn = 1
+			return nil, 0, errors.New("scripted wallet failure")
+		}
+	}
 	i := w.n
 	w.n++
 	return keyFor(i).PubKey(), uint32(i), nil
@@ -367,7 +395,7 @@ func (g *G) observe(call func() ([]engine.WorkSpaceInfo, error)) outcome {
 		}
 	}
 	if len(namesAfter) < len(namesBefore) {
-		g.h.Fail("configure-deleted-files", "a configuration call removed files from the plot directories")
+		g.h.Fail("C11:configure-deleted-files", "a configuration call removed files from the plot directories")
 	}
 	return o
 }
@@ -409,11 +437,11 @@ func (g *G) sizeOracles(what string, req *big.Int, o outcome, indexedBefore []sp
 	if o.err == "ok" {
 		t := total(sel)
 		if t.Cmp(req) > 0 {
-			g.h.Fail("size-exceeds", fmt.Sprintf("%s: selected spaces total %s bytes, more than the %s requested", what, t, req))
+			g.h.Fail("C15:size-exceeds", fmt.Sprintf("%s: selected spaces total %s bytes, more than the %s requested", what, t, req))
 		}
 		short := new(big.Int).Sub(req, t)
 		if short.Cmp(minSize) >= 0 {
-			g.h.Fail("size-shortfall", fmt.Sprintf("%s: selected spaces total %s bytes, short of the %s requested by %s >= the smallest plot size", what, t, req, short))
+			g.h.Fail("C15:size-shortfall", fmt.Sprintf("%s: selected spaces total %s bytes, short of the %s requested by %s >= the smallest plot size", what, t, req, short))
 		}
 		// reuse before create: an indexed space left out would not have fitted, and is larger than anything created
 		selected := map[string]bool{}
@@ -431,13 +459,13 @@ func (g *G) sizeOracles(what string, req *big.Int, o outcome, indexedBefore []sp
 				}
 			}
 			if new(big.Int).SetUint64(sizes[s.bl]).Cmp(gap) <= 0 {
-				g.h.Fail("unused-would-fit", fmt.Sprintf("%s: indexed space %s was left out although it fits into what the indexed selection left open (%s bytes); new spaces were created instead or the request was left short", what, s, gap))
+				g.h.Fail("C15:unused-would-fit", fmt.Sprintf("%s: indexed space %s was left out although it fits into what the indexed selection left open (%s bytes); new spaces were created instead or the request was left short", what, s, gap))
 			}
 		}
 	}
 	for _, c := range o.created {
 		if in(c) && !dirsAllowed[c.dir] {
-			g.h.Fail("new-outside-dirs", fmt.Sprintf("%s: a new space %s was created outside the requested directories", what, c))
+			g.h.Fail("C15:new-outside-dirs", fmt.Sprintf("%s: a new space %s was created outside the requested directories", what, c))
 		}
 	}
 }
@@ -445,10 +473,10 @@ func (g *G) sizeOracles(what string, req *big.Int, o outcome, indexedBefore []sp
 func (g *G) rejectOracle(what string, mustReject bool, o outcome) {
 	g.h.Res.OracleEvals++
 	if mustReject && o.err == "ok" {
-		g.h.Fail("accepted-should-reject", what+": the request is below the minimum size or beyond free disk space but was accepted")
+		g.h.Fail("C15:accepted-should-reject", what+": the request is below the minimum size or beyond free disk space but was accepted")
 	}
 	if o.err != "ok" && len(o.newNames) > 0 {
-		g.h.Fail("reject-created-files", fmt.Sprintf("%s: rejected (%s) but files were created: %v", what, o.err, o.newNames))
+		g.h.Fail("C15:reject-created-files", fmt.Sprintf("%s: rejected (%s) but files were created: %v", what, o.err, o.newNames))
 	}
 }
 
@@ -486,6 +514,10 @@ func main() {
 		for i := 0; i < h.N; i++ {
 			g.generate()
 		}
+		for i := 0; i < 6+h.N/40; i++ {
+			g.faultScenario(i)
+		}
+		g.guardScenario()
 	}
 	g.sk = nil
 	h.Finish("C15: for every configuration request the real keeper/API answered: selected total <= request and short by < the smallest plot size; indexed spaces are used before new ones; new files only in requested directories; exact counts; rejected requests create no file; a restarted keeper finds the selection again")
